@@ -1110,17 +1110,43 @@ impl<'ast, 'res> Resolver<'ast, 'res> {
                                     }
                                     _ => {}
                                 }
+                            } else if receiver_type != ValueType::Dynamic {
+                                self.emit_error(
+                                    *span,
+                                    SemanticError::UndeclaredIdentifier,
+                                    vec![Label {
+                                        span: *span,
+                                        message: ArenaCow::Owned(arena_format!(
+                                            self.arena,
+                                            "Method `{field}` no dey for {receiver_type} type",
+                                        )),
+                                    }],
+                                );
                             } else {
-                                // We defer method validation at runtime for dynamic receivers
-                                if receiver_type != ValueType::Dynamic {
+                                // We defer method validation at runtime for dynamic receivers,
+                                // except for the number of arguments: the runtime indexes the
+                                // argument list by the arity of the method it finds.
+                                let arities = [
+                                    StringBuiltin::from_name(field).map(|b| b.arity()),
+                                    ArrayBuiltin::from_name(field).map(|b| b.arity()),
+                                    NumberBuiltin::from_name(field).map(|b| b.arity()),
+                                    ProcessCommandBuiltin::from_name(field).map(|b| b.arity()),
+                                    ProcessResultBuiltin::from_name(field).map(|b| b.arity()),
+                                ];
+                                if arities.iter().any(Option::is_some)
+                                    && !arities.contains(&Some(args.args.len()))
+                                {
                                     self.emit_error(
                                         *span,
-                                        SemanticError::UndeclaredIdentifier,
+                                        SemanticError::FunctionCallArity,
                                         vec![Label {
                                             span: *span,
                                             message: ArenaCow::Owned(arena_format!(
                                                 self.arena,
-                                                "Method `{field}` no dey for {receiver_type} type",
+                                                "Method `{}` no dey take {} argument{}",
+                                                field,
+                                                args.args.len(),
+                                                if args.args.len() == 1 { "" } else { "s" },
                                             )),
                                         }],
                                     );
